@@ -779,6 +779,9 @@ func roleSlice(rootRole role, lo, hi int64) role {
 func roleSum32Fed(fed ...role) role {
 	return func(v ssa.Value) bool {
 		call, ok := stripConv(v).(*ssa.Call)
+		if ok && stdCalleeName(call) == "hash/crc32.ChecksumIEEE" && len(fed) == 1 {
+			return fed[0](call.Call.Args[0]) // the one-shot form of NewIEEE / Write / Sum32
+		}
 		if !ok || !call.Call.IsInvoke() || call.Call.Method.Name() != "Sum32" {
 			return false
 		}
